@@ -67,7 +67,7 @@ PROPERTIES = {
         clause="indicator polynomials of And/Or/Not/True/False equal their boolean meaning on all rows; composite conditions recurse into every child; the three "
                "get_moment bodies share the guarded-assignment shape. NOT decided: Atom's Lagrange indicator, power reduction, closure, coefficients."),
     "C04": dict(
-        specs=[S("ANSATZ"), S("FIT"), S("GEOMSUM"), S("SPECIALCASES"), S("VALIDFROM"), S("OPTRESOLVE"), S("SOLVERDISPATCH"), S("ROOTS"), S("SOLVERFLAG"), S("LOSSY", r"utils/expressions.py"), S("EXCEPT", r"get_all_roots")],
+        specs=[S("ANSATZ"), S("FIT"), S("GEOMSUM"), S("SPECIALCASES"), S("VALIDFROM"), S("OPTRESOLVE"), S("SOLVERDISPATCH"), S("ROOTS"), S("SOLVERFLAG"), S("LOSSY", r"utils/expressions.py"), S("EXCEPT", r"get_all_roots"), S("MEMOKEY")],
         clause="the general solution of the characteristic-root solver has the m terms C*n**i*r**n (i < m) for every non-zero root of multiplicity m; its constants are fitted on (ansatz at n, n-th iterate) pairs "
                "taken from max(1, multiplicity of the root 0) on (the ansatz leaves the root 0 out); the summation solver is the geometric-sum identity x(n) = c**(n-s) x(s) + sum_{k=s}^{n-1} c**(n-k-1) f(k) "
                "(exponents, bounds and start index compared as rational functions) and is chosen only for acyclic systems; every root source is complete (all_roots / intervals(all=True) on square-free factors with the "
@@ -81,11 +81,11 @@ PROPERTIES = {
                "covers the whole initial block; defaults are included unless the condition is implied by the guard; implied-by-guard answers are sound. "
                "NOT decided: that the fixed point covers all reachable values."),
     "C06": dict(
-        specs=[S("NULLSPACE"), S("ABSTRACT"), S("GROEBNER"), S("RATLATTICE"), S("INVINPUTS"), S("ALIAS"), S("TRIVIAL"), S("DEADGUARD"), S("PARITYROW")],
+        specs=[S("NULLSPACE"), S("ABSTRACT"), S("GROEBNER"), S("RATLATTICE"), S("INVINPUTS"), S("ALIAS"), S("TRIVIAL"), S("DEADGUARD"), S("PARITYROW"), S("ROWINTACT"), S("SOLVERSCOPE"), S("GETORCREATE"), S("EXPSPLIT"), S("KERNELCOLS")],
         clause="no truncation of a rational kernel on the way to exponent vectors; exponentials are abstracted only behind raising checks; the eliminated symbols are "
                "exactly the lex prefix that is filtered. NOT decided: that reported polynomials vanish on the sequences."),
     "C07": dict(
-        specs=[S("GROEBNER"), S("INVINPUTS", r"invariant_ideal"), S("RATLATTICE"), S("KAUERS"), S("ALIAS"), S("TRIVIAL"), S("DEADGUARD"), S("NORMDIM"), S("MAHLER"), S("PARITYROW"), S("QUANT", r"exponent_lattice")],
+        specs=[S("GROEBNER"), S("INVINPUTS", r"invariant_ideal"), S("RATLATTICE"), S("KAUERS"), S("ALIAS"), S("TRIVIAL"), S("DEADGUARD"), S("NORMDIM"), S("MAHLER"), S("PARITYROW"), S("QUANT", r"exponent_lattice"), S("ROWINTACT"), S("GETORCREATE"), S("EXPSPLIT"), S("KERNELCOLS")],
         clause="both groebner() calls compute elimination ideals (generator prefix == filtered symbols, lex order). NOT decided: completeness of the exponent lattice."),
     "C08": dict(
         specs=[S("A1-dist"), S("A2", r"program/distribution/"), S("SAMPLERS"), S("ENUM"), S("FLOAT", r"float_to_rational|distribution"), S("CFMGF"), S("DISTREWRITE"), S("SUPPORTKIND"), S("MOMENTS"), S("MGFDOMAIN"), S("STATE", r"program/distribution|classmutable|modstate"), S("LRU", r"program/distribution"),
@@ -106,7 +106,7 @@ PROPERTIES = {
                   "fixed-point-loop shape analysis of the dependence closure, def-use of the differentiation variable, CFG typestate of the sensitivity action"),
     "C11": dict(
         specs=[S("TAILBOUNDS"), S("KINDCONV"), S("CONVERSIONS"), S("CORNISHFISHER"), S("AFTERLOOP", r"cumulant|central|tail_bound|get_all_cumulants"), S("INVINPUTS", r"identifier"),
-               S("STATE", r"expansions/|utils/statistics|utils/special_polys|cli/common|cli/actions|closure::|classmutable|modstate|default::"), S("LRU", r"expansions/|utils/"), S("SOLVERSCOPE")],
+               S("STATE", r"expansions/|utils/statistics|utils/special_polys|cli/common|cli/actions|closure::|classmutable|modstate|default::"), S("LRU", r"expansions/|utils/"), S("SOLVERSCOPE"), S("GRAMCHARLIER")],
         clause="the raw->cumulant recursion, the raw->central binomial sum and comb(n,k) are the textbook formulas (identities of rational functions over the source expressions, loop ranges included); "
                "Markov bounds are E(M**k)/a**k for every requested order and the lower bound is (m1-a)**2/(m2-2*a*m1+a**2); cumulant / central goals use their own conversion, report the entry of the goal's "
                "order and request the raw moments up to it; their after-loop arms condition on termination and take the limit; goal kinds are stored under their own identifiers. "
@@ -127,7 +127,7 @@ PROPERTIES = {
         clause="CPT rows are written only after the row-sum check, in default->table->entries order with a final completeness check; generated code is in topological "
                "order, numbers values by domain position of their own variable; names are sanitised to grammar atoms. NOT decided: numeric query answers."),
     "C16": dict(
-        specs=[S("NULLSPACE"), S("KAUERS"), S("RATLATTICE"), S("ALIAS"), S("TRIVIAL"), S("NORMDIM"), S("MAHLER"), S("PARITYROW"), S("QUANT", r"exponent_lattice")],
+        specs=[S("NULLSPACE"), S("KAUERS"), S("RATLATTICE"), S("ALIAS"), S("TRIVIAL"), S("NORMDIM"), S("MAHLER"), S("PARITYROW"), S("QUANT", r"exponent_lattice"), S("KERNELCOLS")],
         clause="the rational kernel is not truncated to integers; the LLL loop returns only what passed the exact membership test. NOT decided: independence, completeness."),
     "C17": dict(
         specs=[S("SETTINGS-W"), S("SETTINGS-C"), S("ROOTS"), S("LOSSY", r"utils/expressions.py"), S("SOLVERFLAG"), S("REBUILD"), S("PARSER", r"_transform_categorical"),
@@ -135,7 +135,7 @@ PROPERTIES = {
         clause="options are written only by the CLI setter and read at call time; settings<->options<->setter census; every root source is complete and approximations clear "
                "the flag; cond2arithm keeps every assignment; categorical expansion keeps index/value/probability aligned. NOT decided: equality of closed forms across settings."),
     "C18": dict(
-        specs=[S("EXCEPT"), S("FALLTHROUGH"), S("QUANT"), S("REBUILD"), S("COND2ARITHM"), S("SECTIONTABLES"), S("SUPPORT", r"get_free_symbols"), S("LOSTUPDATE"), S("DEPSOURCES"), S("VOCAB", r"dispatch|mixing"), S("D2"), S("ABSTRACT"), S("MGF"), S("RESOLVE"), S("ARITY")],
+        specs=[S("EXCEPT"), S("FALLTHROUGH"), S("QUANT"), S("REBUILD"), S("COND2ARITHM"), S("SECTIONTABLES"), S("SUPPORT", r"get_free_symbols"), S("LOSTUPDATE"), S("DEPSOURCES"), S("VOCAB", r"dispatch|mixing"), S("D2"), S("ABSTRACT"), S("MGF"), S("RESOLVE"), S("ARITY"), S("EDGEMAX"), S("ORDER")],
         clause="the safety half only (`whatever Polar refuses, it refuses with an error; a refusal never takes the form of a wrong or partial result`): no exception handler swallows an exception "
                "(each re-raises on every path or is a reviewed complete fallback); no function returns a value on some paths and ends without one on others unless its callers test for the missing value; "
                "section rebuilders and cond2arithm raise for what they cannot convert instead of dropping it; dispatchers on operators / function names are total or end in raise; exponentials and mgf uses sit behind raising checks. "
@@ -147,7 +147,7 @@ PROPERTIES = {
         clause="parser templates are precedence-safe; arithmetic is re-stringified token by token; probability vectors and assigned names are validated; floats become "
                "exact rationals; simultaneous assignment puts all temporaries first. NOT decided: equality of the analyses of two spellings."),
     "C20": dict(
-        specs=[S("SETTINGS-W"), S("STATE"), S("RANDOM"), S("LRU"), S("FLAG"), S("SETORDER"), S("SOLVERSCOPE"), S("FRESHCTX"), S("LRUMUT"), S("CLIARGS"), S("INVINPUTS", r"aligned"), S("MEMOKEY")],
+        specs=[S("SETTINGS-W"), S("STATE"), S("RANDOM"), S("LRU"), S("FLAG"), S("SETORDER"), S("SOLVERSCOPE"), S("FRESHCTX"), S("LRUMUT"), S("CLIARGS"), S("INVINPUTS", r"aligned"), S("MEMOKEY"), S("GETORCREATE")],
         clause="inventory of process-global mutable state equals the reviewed table; settings are not written outside the setter (except scoped overrides); memoised "
                "callables read nothing the analysis phase mutates; order-sensitive consumers of sets equal the reviewed table; randomness only in the simulator; the class flag is refreshed by every normalisation. "
                "NOT decided: equality of results across histories / hash seeds."),
